@@ -232,7 +232,7 @@ def install():
 
 def execute(program, prefix, opcode=False, rng=None):
     """Run one schedule of a thread program.  `program` = {"compress": bool, "threads": {tid: [op, ...]}} with ops
-    ["send_text", str] | ["send_binary", [bytes]] | ["send_ping", [..]] | ["close"] | ["loop_pong", [..]] | ["loop_autoping"] |
+    ["send_text", str] | ["send_binary", [bytes]] | ["send_ping", [..]] | ["close"] | ["close_empty"] | ["loop_close_echo_empty"] | ["loop_pong", [..]] | ["loop_autoping"] |
     ["loop_close_echo", code].  Returns (records, choices)."""
     global CUR
     m = install()
@@ -272,6 +272,14 @@ def execute(program, prefix, opcode=False, rng=None):
                     elif name == 'close':
                         pl = b'\x03\xe8goodbye'
                         ws.close()
+                    elif name == 'close_empty':
+                        pl = b''
+                        ws.close(None)                      # a Close frame without status code: empty payload
+                    elif name == 'loop_close_echo_empty':
+                        msg = m['message'].Close(None, '')  # the server's Close carried no status: the echo has an empty payload
+                        pl = b''
+                        for _ in ws._on_close(msg):
+                            pass
                     elif name == 'loop_pong':
                         pl = bytes(op[1])
                         sess._send_pong(m['events'].Ping(pl))
